@@ -29,7 +29,8 @@ Inductive event :=
 | EvClose                        (* m_descriptor->Close() *)
 | EvSend (m : msg)               (* SendMsg wrote m to the peer *)
 | EvService (name req : list N)  (* m_service->CallMethod(method, ..., request) *)
-| EvCall (k id : N)              (* CallMethod number k was given sequence id *)
+| EvCall (k id : N)              (* CallMethod number k (a call with a completion) was given sequence id *)
+| EvStream (k id : N)            (* CallMethod number k was a streaming call, given sequence id *)
 | EvDone (k : N) (o : outcome)   (* completion callback of call k run *)
 | EvChanClose                    (* channel close handler run (send failure) *)
 | EvOutOfFuel.                   (* model artefact: the level-triggered loop ran out of fuel *)
@@ -47,12 +48,16 @@ Record frame := mkFrame {
 Record rpc := mkRpc {
   dead : bool;                 (* m_descriptor == NULL (after a failed send) *)
   seq : N;                     (* m_sequence *)
-  ncalls : N;                  (* number of CallMethod invocations so far (identity of the next call) *)
-  responses : list (N * N)     (* m_responses : id -> outstanding call *)
+  ncalls : N;                  (* number of CallMethod invocations so far = identity of the next call
+                                  (streaming calls included: every call draws one sequence number) *)
+  responses : list (N * N);    (* m_responses : id -> outstanding call *)
+  nreq : N;                    (* number of requests handed to the service so far = identity of the next *)
+  requests : list (N * N);     (* m_requests : id -> outstanding server-side request *)
+  cancelled : list N           (* superseded requests the service still holds (freed when it completes them) *)
 }.
 
 Definition init_frame : frame := mkFrame 0 0 0 0 [] [] false.
-Definition init_rpc : rpc := mkRpc false 0 0 [].
+Definition init_rpc : rpc := mkRpc false 0 0 [] 0 [] [].
 
 Definition TXT_SEND_FAILED : list N :=
   [70;97;105;108;101;100;32;116;111;32;115;101;110;100;32;114;101;113;117;101;115;116].
@@ -72,6 +77,26 @@ Fixpoint remove (id : N) (l : list (N * N)) : list (N * N) :=
   | [] => []
   | (i, k) :: r => if i =? id then remove id r else (i, k) :: remove id r
   end.
+(* the key under which value q is stored *)
+Fixpoint key_of (q : N) (l : list (N * N)) : option N :=
+  match l with
+  | [] => None
+  | (i, k) :: r => if k =? q then Some i else key_of q r
+  end.
+Fixpoint memN (x : N) (l : list N) : bool :=
+  match l with [] => false | y :: r => (y =? x) || memN x r end.
+Fixpoint delN (x : N) (l : list N) : list N :=
+  match l with [] => [] | y :: r => if y =? x then delN x r else y :: delN x r end.
+
+(* field updates *)
+Definition set_dead (r : rpc) : rpc :=
+  mkRpc true (seq r) (ncalls r) (responses r) (nreq r) (requests r) (cancelled r).
+Definition set_responses (r : rpc) (l : list (N * N)) : rpc :=
+  mkRpc (dead r) (seq r) (ncalls r) l (nreq r) (requests r) (cancelled r).
+Definition next_call (r : rpc) : rpc :=
+  mkRpc (dead r) (u32 (seq r + 1)) (ncalls r + 1) (responses r) (nreq r) (requests r) (cancelled r).
+Definition set_server (r : rpc) (n : N) (rq : list (N * N)) (c : list N) : rpc :=
+  mkRpc (dead r) (seq r) (ncalls r) (responses r) n rq c.
 
 (* RpcHeader::DecodeHeader on the 4 header bytes in host (little-endian) order *)
 Definition hdr_word (h : list N) : N :=
@@ -86,25 +111,28 @@ Section Model.
 Variable decode : list N -> option msg.        (* RpcMessage::ParseFromArray *)
 Variable method_kind : list N -> N.            (* FindMethodByName: 0 none, 1 method, 2 streaming method *)
 Variable req_ok : list N -> bool.              (* request prototype ParseFromString *)
-Variable service : list N -> list N -> sres.   (* what the service does with (method, request) *)
-Variable call_name call_req : list N.          (* method name / serialized request used by CallMethod *)
+Variable service : list N -> list N -> option sres.
+  (* what the service does with (method, request): Some = completes inside CallMethod,
+     None = keeps the completion callback and completes later (OpComplete) *)
 
 (* SendMsg: [cl] = descriptor closed, [sendok] = Send() wrote the whole message *)
 Definition send_msg (cl sendok : bool) (r : rpc) (m : msg) : rpc * list event * bool :=
   if dead r || cl then (r, [], false)
   else if sendok then (r, [EvSend m], true)
-  else (mkRpc true (seq r) (ncalls r) (responses r), [EvChanClose], false).
+  else (set_dead r, [EvChanClose], false).
 
-(* CallMethod (non-streaming call) *)
-Definition call_method (cl sendok : bool) (r : rpc) : rpc * list event :=
+(* CallMethod: [streaming] = the method's output type is STREAMING_NO_RESPONSE *)
+Definition call_method (cl sendok streaming : bool) (name req : list N) (r : rpc) : rpc * list event :=
   let id := seq r in
   let k := ncalls r in
-  let r1 := mkRpc (dead r) (u32 (seq r + 1)) (ncalls r + 1) (responses r) in
-  let '(r2, evs, ok) := send_msg cl sendok r1 (mkMsg REQUEST id call_name call_req) in
-  if negb ok then (r2, EvCall k id :: evs ++ [EvDone k (OFailed TXT_SEND_FAILED)])
+  let r1 := next_call r in
+  let '(r2, evs, ok) :=
+    send_msg cl sendok r1 (mkMsg (if streaming then STREAM_REQUEST else REQUEST) id name req) in
+  if streaming then (r2, EvStream k id :: evs)
+  else if negb ok then (r2, EvCall k id :: evs ++ [EvDone k (OFailed TXT_SEND_FAILED)])
   else
     let old := lookup id (responses r2) in
-    let r3 := mkRpc (dead r2) (seq r2) (ncalls r2) ((id, k) :: remove id (responses r2)) in
+    let r3 := set_responses r2 ((id, k) :: remove id (responses r2)) in
     match old with
     | Some ko => (r3, EvCall k id :: evs ++ [EvDone ko (OFailed TXT_DUPLICATE)])
     | None => (r3, EvCall k id :: evs)
@@ -120,23 +148,52 @@ Definition resp_outcome (m : msg) : option outcome :=
 
 Definition handle_response (r : rpc) (m : msg) (o : outcome) : rpc * list event :=
   match lookup (m_id m) (responses r) with
-  | Some k => (mkRpc (dead r) (seq r) (ncalls r) (remove (m_id m) (responses r)), [EvDone k o])
+  | Some k => (set_responses r (remove (m_id m) (responses r)), [EvDone k o])
   | None => (r, [])
   end.
 
-(* HandleRequest with a service that completes synchronously (RequestComplete /
-   SendRequestFailed run inside CallMethod) *)
+(* RequestComplete(request q) / SendRequestFailed: the service ran the completion callback.
+   A superseded (cancelled) request is only freed; a request that is not outstanding is the service
+   running a single-use callback twice, which cannot happen (modelled as no effect). *)
+Definition request_complete (cl sendok : bool) (r : rpc) (q : N) (res : sres) : rpc * list event :=
+  if memN q (cancelled r) then (set_server r (nreq r) (requests r) (delN q (cancelled r)), [])
+  else match key_of q (requests r) with
+       | None => (r, [])
+       | Some id =>
+         let reply := match res with
+                      | SReply b => mkMsg RESPONSE id [] b
+                      | SFail t => mkMsg RESPONSE_FAILED id [] t
+                      end in
+         let '(r', evs, _) := send_msg cl sendok r reply in
+         (set_server r' (nreq r') (remove id (requests r')) (cancelled r'), evs)
+       end.
+
+(* the duplicate-id branch of HandleRequest: the outstanding request with this id is failed towards
+   the client, taken out of m_requests and left to be freed when the service completes it *)
+Definition supersede (cl sendok : bool) (r : rpc) (id : N) : rpc * list event :=
+  match lookup id (requests r) with
+  | Some qo =>
+    let '(r', e, _) := send_msg cl sendok r (mkMsg RESPONSE_FAILED id [] []) in
+    (set_server r' (nreq r') (remove id (requests r')) (qo :: cancelled r'), e)
+  | None => (r, [])
+  end.
+
+(* HandleRequest.  A request whose id is already outstanding fails the old one towards the client
+   and leaves it to be freed when the service completes it. *)
 Definition handle_request (cl sendok : bool) (r : rpc) (m : msg) : rpc * list event :=
   if method_kind (m_name m) =? 0 then
     let '(r', evs, _) := send_msg cl sendok r (mkMsg RESPONSE_NOT_IMPLEMENTED (m_id m) [] []) in (r', evs)
   else if negb (req_ok (m_buf m)) then (r, [])
   else
-    let reply := match service (m_name m) (m_buf m) with
-                 | SReply b => mkMsg RESPONSE (m_id m) [] b
-                 | SFail t => mkMsg RESPONSE_FAILED (m_id m) [] t
-                 end in
-    let '(r', evs, _) := send_msg cl sendok r reply in
-    (r', EvService (m_name m) (m_buf m) :: evs).
+    let q := nreq r in
+    let '(r1, evs1) := supersede cl sendok r (m_id m) in
+    let r2 := set_server r1 (nreq r1 + 1) ((m_id m, q) :: requests r1) (cancelled r1) in
+    match service (m_name m) (m_buf m) with
+    | None => (r2, evs1 ++ [EvService (m_name m) (m_buf m)])
+    | Some res =>
+      let '(r3, evs3) := request_complete cl sendok r2 q res in
+      (r3, evs1 ++ EvService (m_name m) (m_buf m) :: evs3)
+    end.
 
 Definition handle_stream_request (cl sendok : bool) (r : rpc) (m : msg) : rpc * list event :=
   if method_kind (m_name m) =? 0 then
@@ -235,12 +292,18 @@ Fixpoint feed (fuel : nat) (sendok : bool) (f : frame) (r : rpc) (avail : list N
 
 Inductive op :=
 | OpChunk (bs : list N) (sendok : bool)   (* bs become readable; sendok: replies can be written *)
-| OpCall (sendok : bool).                 (* the application calls a method; sendok: Send() succeeds *)
+| OpCall (streaming : bool) (name req : list N) (sendok : bool)
+                                          (* the application calls a method; sendok: Send() succeeds *)
+| OpComplete (q : N) (res : sres) (sendok : bool).
+                                          (* the service completes the request it was given as number q *)
 
 Definition step (f : frame) (r : rpc) (o : op) : frame * rpc * list event :=
   match o with
   | OpChunk bs sendok => feed (length bs) sendok f r bs
-  | OpCall sendok => let '(r', evs) := call_method (closed f) sendok r in (f, r', evs)
+  | OpCall streaming name req sendok =>
+    let '(r', evs) := call_method (closed f) sendok streaming name req r in (f, r', evs)
+  | OpComplete q res sendok =>
+    let '(r', evs) := request_complete (closed f) sendok r q res in (f, r', evs)
   end.
 
 Fixpoint run (f : frame) (r : rpc) (ops : list op) : frame * rpc * list event :=
@@ -291,10 +354,21 @@ Definition oob (e : event) : bool :=
 
 (* vocabulary of the property statements *)
 (* healthy: every write to the peer succeeds (no jammed or failed send) *)
-Definition healthy (o : op) : bool := match o with OpChunk _ b => b | OpCall b => b end.
-Definition op_bytes (o : op) : list N := match o with OpChunk bs _ => bs | OpCall _ => [] end.
+Definition healthy (o : op) : bool :=
+  match o with OpChunk _ b => b | OpCall _ _ _ b => b | OpComplete _ _ b => b end.
+Definition op_bytes (o : op) : list N := match o with OpChunk bs _ => bs | _ => [] end.
 (* the byte stream a script delivers, whatever its segmentation *)
 Definition stream (ops : list op) : list N := flat_map op_bytes ops.
+(* the streaming calls of a trace *)
+Definition streams (evs : list event) : list N :=
+  flat_map (fun e => match e with EvStream k _ => [k] | _ => [] end) evs.
 (* how many times call k was completed *)
 Definition cnt (k : N) (ds : list (N * outcome)) : nat :=
   length (filter (fun p => fst p =? k) ds).
+(* the messages a trace wrote to the peer *)
+Definition sends (evs : list event) : list msg :=
+  flat_map (fun e => match e with EvSend m => [m] | _ => [] end) evs.
+(* reply-type messages (the serving side never sends RESPONSE_CANCEL) *)
+Definition is_reply (m : msg) : bool :=
+  (m_type m =? RESPONSE) || (m_type m =? RESPONSE_FAILED) || (m_type m =? RESPONSE_NOT_IMPLEMENTED).
+Definition is_request (m : msg) : bool := (m_type m =? REQUEST) || (m_type m =? STREAM_REQUEST).
